@@ -14,13 +14,23 @@ Record prog_case := {
 
 Inductive case : Type := CSeq (t : trace) | CProg (p : prog_case).
 
+(** the keeper table as the driver reads it: the code id of an account whose bytecode cannot be
+    retrieved from the (shared) code table is reported as -3 *)
+Definition table_of_keeper (as_ : list addr) (ks : list key) (k : keeper) : list arow :=
+  map (fun a => match k_acct k a with
+                | Some x => (true, to_wei (ka_bal x), ka_nonce x,
+                             (if (ka_code x =? 0) || k_code k (ka_code x) then ka_code x else -3),
+                             map (k_stor k a) ks)
+                | None => (false, 0, 0, 0, map (k_stor k a) ks)
+                end) as_.
+
 (** the Nibiru model's observations: return values + the keeper table after each Commit *)
 Fixpoint model_obs (as_ : list addr) (ks : list key) (k : keeper) (txs : list (list op)) : list tx_obs :=
   match txs with
   | [] => []
   | t :: rest =>
     let '(k1, rs) := run_tx k t in
-    {| o_rets := rs; o_table := table_of_world as_ ks (world_of k1) |} :: model_obs as_ ks k1 rest
+    {| o_rets := rs; o_table := table_of_keeper as_ ks k1 |} :: model_obs as_ ks k1 rest
   end.
 
 (** model output ≠ observed: (i) the StateDB model vs Nibiru on EVERY case (also malformed ones);
